@@ -115,12 +115,12 @@ impl std::fmt::Display for ParseErrorDisplay<'_> {
         if node.byte_range().is_empty() {
             writeln!(f, "")?;
         } else {
-            let end_byte = self.source[node.byte_range()]
+            let first_line_len: usize = self.source[node.byte_range()]
                 .chars()
                 .take_while(|c| *c != '\n')
                 .map(|c| c.len_utf8())
                 .sum();
-            let text = &self.source[node.start_byte()..end_byte];
+            let text = &self.source[node.start_byte()..node.start_byte() + first_line_len];
             write!(f, ": {}", text)?;
         }
         Ok(())
